@@ -30,9 +30,11 @@ def gen(seed, index):
     D = max(g1.dur(first), unit)
     mode = rng.random()
     if mode < 0.12:
-        tempo = ["T", [0, g.hexf(rng.choice([30, 60, 90, 120, 47.5])), g.hexf(0)]]
+        # a constant tempo: as a one-point trajectory, or (kind D) as the tempo OBJECT a user would write - a DirectTempo,
+        # or a WesternTempo (for 120)
+        tempo = [rng.choice(["T", "D", "D"]), [0, g.hexf(rng.choice([30, 60, 90, 120, 47.5])), g.hexf(0)]]
     elif mode < 0.2:
-        tempo = ["T", [0, g.hexf(60), g.hexf(0)]]
+        tempo = [rng.choice(["T", "D"]), [0, g.hexf(60), g.hexf(0)]]
     else:
         n = rng.randint(2, 6)
         span = int(D * rng.choice([0.25, 0.5, 1, 1, 1.5, 2]))
@@ -68,6 +70,12 @@ def gen(seed, index):
         else:
             trees.append(G1.tree(kind=rng.choice(["S", "P", "L"])))
     return ["convert", tempo] + trees[:6]
+
+
+def model_case(case):
+    if case[1][0] == "D":
+        return [case[0], ["T"] + case[1][1:]] + case[2:]      # a constant tempo object is the one-point trajectory of the model
+    return case
 
 
 def compare(case, mo, io):
